@@ -408,6 +408,11 @@ fn c01(tier: &str) -> Vec<String> {
         }
         // delimiter-bearing strings: only the construction rule applies
         v.push(format!("fmt01:row={}:form=try:tier=quick:dirty=1", row));
+        // every line length up to ~1.3 KiB, then around the powers of two up to 128 KiB
+        v.push(format!("fmtlen:row={}:part=key:max={}", row, if tier == "thorough" { 2200 } else { 1100 }));
+    }
+    for row in [0usize, 9, 15, 22] {
+        v.push(format!("fmtlen:row={}:part=tags", row));
     }
     v
 }
@@ -555,7 +560,13 @@ fn c20(tier: &str) -> Vec<String> {
 }
 
 fn c04(tier: &str) -> Vec<String> {
-    (0..24).map(|row| format!("fmt04:row={}:tier={}", row, tier)).collect()
+    let mut v: Vec<String> = (0..24).map(|row| format!("fmt04:row={}:tier={}", row, tier)).collect();
+    // default tags, per-call tags, prefix and container of every length 0..300 and around 512, 4 KiB, 64 KiB
+    for row in 0..24 {
+        v.push(format!("fmtlen:row={}:part=tags", row));
+        v.push(format!("fmtlen:row={}:part=key:max=600", row));
+    }
+    v
 }
 
 pub fn instances(prop: &str, tier: &str) -> Vec<String> {
